@@ -139,6 +139,20 @@ fn c05_harness(spec: &RunSpec) -> RunOutput {
     }
 }
 
+/// C02 / C03: every fourth run is an API-level run (real clients; call-heavy resp. registry-heavy
+/// programs), so that the client library's half of the property is exercised too.
+fn c02_c03_harness(spec: &RunSpec) -> RunOutput {
+    let api = match &spec.plan {
+        Some(p) => p["harness"].as_str() == Some("api"),
+        None => spec.index % 4 == 3,
+    };
+    if api {
+        api::api_harness(spec)
+    } else {
+        wire_harness(spec)
+    }
+}
+
 /// C04 / C10: every fourth run is an API-level run (real clients, deterministic rounds).
 fn c04_c10_harness(spec: &RunSpec) -> RunOutput {
     let api = match &spec.plan {
@@ -178,7 +192,7 @@ fn prop_cfg(prop: Prop) -> Option<PropCfg> {
         assumptions: WIRE_ASSUME,
     };
     Some(match prop {
-        Prop::C02 => wire(
+        Prop::C02 => PropCfg { harness: c02_c03_harness, ..wire(
             |st| {
                 has(st, "overlapping-calls")
                     && any(
@@ -191,10 +205,10 @@ fn prop_cfg(prop: Prop) -> Option<PropCfg> {
                         ],
                     )
             },
-            "runs generated per seed by the C02 profile (calls, replies, aborts, destruction, disconnects from 2-4 connections of versions 1.14-1.20); a run is non-trivial when at least one call reached a terminal outcome while another call was pending; distinct = distinct broker linearisation signatures (hash of the sequence of (connection, message kind, result class) in dequeue order)",
+            "runs generated per seed by the C02 profile (calls, replies, aborts, destruction, disconnects from 2-4 connections of versions 1.14-1.20); a run is non-trivial when at least one call reached a terminal outcome while another call was pending; distinct = distinct broker linearisation signatures (hash of the sequence of (connection, message kind, result class) in dequeue order). Every fourth run is an API-level run: 2-4 real clients running call-heavy programs (calls awaited / dropped / cancelled against server tasks that answer, fail, abort or drop, while services, proxies and objects are destroyed or dropped), judged by the same broker model plus the client-side oracles (reply value, no hang at quiescence, no client error or panic)",
             "exploration",
-        ),
-        Prop::C03 => wire(
+        ) },
+        Prop::C03 => PropCfg { harness: c02_c03_harness, ..wire(
             |st| {
                 any(
                     st,
@@ -209,9 +223,9 @@ fn prop_cfg(prop: Prop) -> Option<PropCfg> {
                     ],
                 )
             },
-            "runs generated per seed by the C03 profile (create/destroy object/service over pools of 3x3 UUIDs with own/foreign/stale/never-issued cookies, queries, disconnects); non-trivial when a collision, foreign access, re-creation or cascade happened; distinct = distinct broker linearisation signatures",
+            "runs generated per seed by the C03 profile (create/destroy object/service over pools of 3x3 UUIDs with own/foreign/stale/never-issued cookies, queries, disconnects); non-trivial when a collision, foreign access, re-creation or cascade happened; distinct = distinct broker linearisation signatures. Every fourth run is an API-level run: 2-4 real clients churning objects and services through the client library (create / destroy / drop / re-create under pool UUIDs, with calls, find_object and discoverers as observers), judged by the same broker model plus the client-side oracles",
             "exploration",
-        ),
+        ) },
         Prop::C04 => PropCfg { harness: c04_c10_harness, ..wire(
             |st| {
                 any(
